@@ -298,13 +298,27 @@ impl SharedSink {
     }
     /// A sink whose write-acceptance pattern is picked from `selector` (decoders must not care):
     /// mostly everything at once, sometimes 1 byte per call or random short counts. Only for
-    /// outputs small enough (`expected_len`) that byte-wise writes stay cheap.
+    /// outputs small enough (`expected_len`) that byte-wise writes stay cheap. Also: a retryable
+    /// `Interrupted` once, alone or in between short writes (`write_all` retries it).
     pub fn varied(selector: u64, expected_len: usize) -> Self {
         let s = Self::new();
         if expected_len <= (1 << 18) {
-            match selector % 7 {
-                3 => s.0.borrow_mut().short = 1,
-                5 => s.0.borrow_mut().short_rng = Some(selector | 1),
+            let k = 1 + (selector >> 8) % 4;
+            let mut st = s.0.borrow_mut();
+            match selector % 9 {
+                3 => st.short = 1,
+                5 => st.short_rng = Some(selector | 1),
+                // a retryable interruption, once, at one of the first writes
+                1 => {
+                    st.fail_write_at = Some(k);
+                    st.fail_kind = Some(io::ErrorKind::Interrupted);
+                }
+                // a few bytes per write AND one retryable interruption in between
+                7 => {
+                    st.short = 3 + (selector >> 12) as usize % 7;
+                    st.fail_write_at = Some(1 + k);
+                    st.fail_kind = Some(io::ErrorKind::Interrupted);
+                }
                 _ => {}
             }
         }
